@@ -275,7 +275,8 @@ def _call_safe(c, score_only=False):
                 try:
                     r = _call(c, so, built=(s1, s2, matrix))
                 except Exception as e:  # noqa: BLE001
-                    out[so] = ("err", type(e).__name__, [])
+                    # a refused call changes nothing
+                    out[so] = ("err", type(e).__name__, _side_checks(c, s1, s2, matrix, snap, None))
                     continue
                 side = _side_checks(c, s1, s2, matrix, snap, r)
                 out[so] = ("ok", int(r) if so else [(int(x.score), x.trace.tolist()) for x in r], side)
@@ -531,6 +532,8 @@ def oracle(case):
     k = c.get("kind")
     if k not in ("banded", "gapped", "ungapped"):
         return []
+    if c.get("internal"):
+        return _internal_oracle(c)
     if c.get("variants"):
         return _variants_oracle(c)
     a, b, Mx, gap = c["a"], c["b"], c["M"], c["gap"]
@@ -547,6 +550,10 @@ def oracle(case):
         res = _call_safe(c)
     except Exception as e:  # noqa: BLE001
         name = _err(e)
+        side = [(f"C09/{k}/refused-call/{what}", f"{msg} although the call raised {name}; {_brief(c)}")
+                for what, msg in _SIDE.get((signature(c), False, c.get("w1"), c.get("w2")), [])]
+        if side:
+            return side
         if malformed == "mts" and name == "ERR:MemoryError":
             return _mts_oracle(c)
         if malformed:
@@ -1087,7 +1094,7 @@ def _long_exact(rng):
             else:
                 b.insert(pos, rng.randrange(k))
     else:
-        b = a[:rng.randint(30, 70)]
+        b = a[:rng.randint(30, 55)]
         if rng.random() < 0.5:
             b[rng.randrange(len(b))] = rng.randrange(k)
     if rng.random() < 0.4:
@@ -1100,7 +1107,7 @@ def _long_exact(rng):
     c = {"kind": "gapped", "a": a, "b": b, "M": M, "w1": "u8", "w2": "u8", "max": 1,
          "gap": rng.choice([[-3], [-5], [-4, -1]]), "seed": seed, "dir": d,
          # a non-binding threshold fills the whole region: only when one side is short (cost of the Lean model)
-         "thr": rng.choice([HUGE, HUGE, 12]) if min(n, m) <= 70 else 12}
+         "thr": rng.choice([HUGE, 12]) if min(n, m) <= 70 else 12}
     sizes = sorted(x for x in table_sizes(c) if x > 1)
     # the sizes reached by doubling at least one dimension are the interesting limits
     base = rng.choice(sizes[1:]) if len(sizes) > 1 else sizes[0]
@@ -1472,25 +1479,117 @@ def _init_boundary(rng):
     return c
 
 
+# ---------------------------------------------------------------- less-used entry points of the anchor modules
+def _internal_child(c):
+    import numpy as np
+    out = []
+    what = c["internal"]
+    if what == "trace_starts":
+        from biotite.sequence.align.banded import get_global_trace_starts
+        n, m, lo, hi = c["n"], c["m"], c["lo"], c["hi"]
+        i, j = get_global_trace_starts(n, m, lo, hi)
+        got = sorted((int(a_), int(b_) + int(a_) + lo - 1) for a_, b_ in zip(i, j))      # straightened -> classic (i, j)
+        # documented: one start per diagonal of the band: the cell of that diagonal in the last row if it exists,
+        # otherwise the cell in the last column
+        want = sorted((n, n + d) if n + d <= m else (m - d, m) for d in range(lo, hi + 1))
+        if got != want:
+            out.append(("C09/banded/trace-starts", f"get_global_trace_starts({n}, {m}, {lo}, {hi}) gives cells {got}, expected {want}"))
+    elif what == "extend_table":
+        from biotite.sequence.align.localgapped import _extend_table
+        rows, cols, dim, lim = c["rows"], c["cols"], c["dim"], c["lim"]
+        for dt in (np.int32, np.uint8):
+            t = (np.arange(rows * cols).reshape(rows, cols) % 100 + 1).astype(dt)
+            snap = t.copy()
+            new_shape = (rows * 2, cols) if dim == 0 else (rows, cols * 2)
+            try:
+                r = np.asarray(_extend_table(t, dim, lim))
+            except MemoryError:
+                if new_shape[0] * new_shape[1] <= lim:
+                    out.append(("C09/gapped/extend_table/refused-within-limit",
+                                f"_extend_table {rows}x{cols} dim {dim}: MemoryError although {new_shape[0] * new_shape[1]} <= max_size {lim}"))
+                if not np.array_equal(t, snap):
+                    out.append(("C09/gapped/extend_table/refused-call-modified-table", "table changed by a refused _extend_table"))
+                continue
+            if new_shape[0] * new_shape[1] > lim:
+                out.append(("C09/gapped/extend_table/limit-ignored", f"_extend_table grew to {new_shape} beyond max_size {lim}"))
+            if r.shape != new_shape or r.dtype != t.dtype:
+                out.append(("C09/gapped/extend_table/shape", f"shape/dtype {r.shape} {r.dtype}, expected {new_shape} {t.dtype}"))
+            elif not (np.array_equal(r[:rows, :cols], snap) and not r[rows:, :].any() and not r[:, cols:].any()):
+                out.append(("C09/gapped/extend_table/content", f"_extend_table {rows}x{cols} dim {dim}: old cells not preserved "
+                            f"or new cells not zero"))
+            if not np.array_equal(t, snap):
+                out.append(("C09/gapped/extend_table/input-modified", "the old table was modified"))
+    elif what == "seed_extend":
+        from biotite.sequence.align.localungapped import _seed_extend_generic
+        x, y, M, thr = c["x"], c["y"], c["M"], c["thr"]
+        total = best = 0
+        length = 0
+        for k_, (p, q) in enumerate(zip(x, y)):
+            total += M[p][q]
+            if total >= best:
+                best, length = total, k_ + 1
+            elif best - total > thr:
+                break
+        for dt1, dt2 in ((np.uint8, np.uint16), (np.uint16, np.uint8), (np.uint32, np.uint64), (np.uint64, np.uint32)):
+            r = _seed_extend_generic(np.array(x, dtype=dt1), np.array(y, dtype=dt2), np.array(M, dtype=np.int32), thr)
+            if (int(r[0]), int(r[1])) != (best, length):
+                out.append(("C09/ungapped/seed_extend_generic", f"_seed_extend_generic {dt1.__name__}/{dt2.__name__} on {x} {y} thr {thr}: "
+                            f"{(int(r[0]), int(r[1]))}, expected {(best, length)}"))
+    return out
+
+
+def _internal(rng):
+    r = rng.random()
+    if r < 0.4:
+        n = rng.randint(1, 8)
+        m = rng.randint(n, 10)
+        lo = rng.randint(-n + 1, m - 1)
+        hi = rng.randint(lo, m - 1)
+        return {"kind": "banded", "internal": "trace_starts", "n": n, "m": m, "lo": lo, "hi": hi,
+                "a": [0] * n, "b": [0] * m, "M": [[0, 1], [1, 0]], "gap": [-1]}
+    if r < 0.7:
+        rows, cols, dim = rng.randint(1, 12), rng.randint(1, 12), rng.randint(0, 1)
+        new = rows * cols * 2
+        return {"kind": "gapped", "internal": "extend_table", "rows": rows, "cols": cols, "dim": dim,
+                "lim": new + rng.choice([0, 0, -1, 1, 5, -5]), "a": [0], "b": [0], "M": [[0, 1], [1, 0]], "gap": [-1]}
+    k = rng.randint(2, 4)
+    ln = rng.randint(0, 9)
+    return {"kind": "ungapped", "internal": "seed_extend", "x": [rng.randrange(k) for _ in range(ln)],
+            "y": [rng.randrange(k) for _ in range(rng.randint(0, 9))], "thr": rng.choice([0, 1, 2, 3, 5, HUGE]),
+            "M": [[rng.randint(-4, 4) for _ in range(k)] for _ in range(k)], "a": [0], "b": [0], "gap": [-1]}
+
+
+def _internal_oracle(c):
+    from common import sandbox
+    r = sandbox.run_forked(lambda: _internal_child(c), timeout=60)
+    if r[0] == "ok":
+        return r[1]
+    if r[0] == "err":
+        return [(f"C09/internal/{c['internal']}/raises-{r[1]}", f"{c['internal']} raised {r[1]}: {r[2] if len(r) > 2 else ''}; {c}")]
+    return [(f"C09/internal/{c['internal']}/crash", f"the process died / hung in {c['internal']}; {c}")]
+
+
 def cases(rng, tier):
     quick = tier == "quick"
-    for k in range(60 if quick else 600):
+    for k in range(90 if quick else 600):
+        yield _internal(rng)
+    for k in range(100 if quick else 800):
         yield _variants(rng)
-    for k in range(3 if quick else 30):
+    for k in range(6 if quick else 40):
         yield _init_boundary(rng)
     for k in range(150 if quick else 1500):
         yield _multi_end(rng)
     for k in range(120 if quick else 1200):
         yield _xdrop_edge(rng)
-    for k in range(560 if quick else 8500):
+    for k in range(700 if quick else 8500):
         yield _case(rng, 8 if (quick or k % 5) else 14, allow_empty=(k % 12 == 0))
     for k in range(60 if quick else 600):
         yield _case(rng, 6, malformed=True)
-    for k in range(40 if quick else 600):
+    for k in range(60 if quick else 600):
         yield _on_optimal(rng)
     for k in range(6 if quick else 60):
         yield _long(rng, mem=(k % 2 == 1))
-    for k in range(6 if quick else 60):
+    for k in range(8 if quick else 60):
         yield _long_exact(rng)
     # exhaustive small shapes: every pair of length <= L over 2 letters, every seed / every band
     import itertools
@@ -1557,13 +1656,16 @@ def corpus():
 
 
 def nontrivial(case, impl_out):
+    if case.get("internal") or case.get("variants"):
+        return True
     Mx = case["M"]
     return (bool(case["a"]) and bool(case["b"]) and len({x for r in Mx for x in r}) > 1
             and bool(impl_out) and impl_out[0].startswith("ok"))
 
 
 def signature(case):
-    keys = ["kind", "a", "b", "M", "gap", "local", "band", "seed", "thr", "dir", "max", "mts", "variants"]
+    keys = ["kind", "a", "b", "M", "gap", "local", "band", "seed", "thr", "dir", "max", "mts", "variants", "internal",
+            "n", "m", "lo", "hi", "rows", "cols", "dim", "lim", "x", "y"]
     return "|".join(str(case.get(k)) for k in keys)
 
 
@@ -1573,7 +1675,14 @@ def distribution(cases, impl_outs):
 
     def inc(k, x):
         d[k][x] = d[k].get(x, 0) + 1
+    d["stream"] = {}
     for c, o in zip(cases, impl_outs):
+        if c.get("internal"):
+            inc("stream", "internal:" + c["internal"])
+            continue
+        if c.get("variants"):
+            inc("stream", "variants:" + c["kind"])
+            continue
         n, m = len(c["a"]), len(c["b"])
         inc("kind", c["kind"] + ("/local" if c.get("local") else ""))
         inc("gap", "linear" if len(c["gap"]) == 1 else "affine")
